@@ -53,7 +53,15 @@ SINKS: Dict[str, Tuple[str, Callable[[str], str], bool]] = {
     'field-body-epy':  ('epytext', lambda P: f'def f(a):\n    """\n    @param a: {P}\n    @note: {P}\n    """\n', False),
     'field-arg-epy':   ('epytext', lambda P: f'def f(a):\n    """\n    @raise {P}: x\n    @param {P}: y\n    """\n', False),
     'ivar-name-epy':   ('epytext', lambda P: f'class K:\n    """\n    @ivar {P}: x\n    """\n', False),
-    'xref-epy':        ('epytext', lambda P: f'def f():\n    """L{{{P}}} L{{label {P}<f>}}"""\n', False),
+    'xref-epy':        ('epytext', lambda P: f'def f():\n    """L{{{P}}}"""\n', False),
+    # one payload position per sink: a fatal markup error anywhere turns the whole docstring into plain text and would hide the other position
+    'xref-label-epy':  ('epytext', lambda P: f'def f():\n    """See L{{{P} <f>}} and L{{lbl {P}<f>}}."""\nclass K:\n    """Class L{{a {P} b <K.m>}}."""\n    def m(self): pass\n', False),
+    'xref-label-rst':  ('restructuredtext', lambda P: f'def f():\n    """See `{P} <f>`."""\n', False),
+    'url-label-epy':   ('epytext', lambda P: f'def f():\n    """See U{{{P} <http://x/>}}."""\n', False),
+    'field-arg-raise-epy': ('epytext', lambda P: f'def f(a):\n    """\n    @raise {P}: x\n    """\n', False),
+    'field-arg-param-epy': ('epytext', lambda P: f'def f(a):\n    """\n    @param {P}: y\n    """\n', False),
+    'field-type-rst':  ('restructuredtext', lambda P: f'def f(a):\n    """\n    :type a: {P}\n    """\n', False),
+    'field-raises-rst': ('restructuredtext', lambda P: f'def f(a):\n    """\n    :raises {P}: x\n    """\n', False),
     'url-epy':         ('epytext', lambda P: f'def f():\n    """U{{label {P}<http://x/>}} U{{http://x/{P}}}"""\n', False),
     'doc-word-rst':    ('restructuredtext', lambda P: f'def f():\n    """Doc {P} end."""\n', True),
     'doc-code-rst':    ('restructuredtext', lambda P: f'def f():\n    """Doc ``{P}`` end."""\n', True),
